@@ -8,7 +8,8 @@ THEOREMS = ['Tbox.C15.C15_terminates', 'Tbox.C15.C15_terminates_bound', 'Tbox.C1
             'Tbox.C15.C15_callback_at_most_once', 'Tbox.C15.C15_cancelled_never_called',
             'Tbox.C15.C15_no_callback_once_dead', 'Tbox.C15.C15_called_log', 'Tbox.C15.C15_callback_once_partial',
             'Tbox.C15.C15_outstanding_at_most_5_ticks', 'Tbox.C15.C15_timer_armed_while_outstanding',
-            'Tbox.C15.C15_timeout_early_counterexample', 'Tbox.C15.C15_callback_once_counterexample',
+            'Tbox.C15.C15_timeout_early_counterexample', 'Tbox.C15.C15_callback_after_erase',
+            'Tbox.C15.C15_orig_selfcancel_counterexample', 'Tbox.C15.C15_callback_once_counterexample',
             'Tbox.C15.C15_orig_terminates_counterexample', 'Tbox.C15.C15_orig_uninit_counterexample_short',
             'Tbox.C15.C15_orig_uninit_counterexample_label', 'Tbox.C15.C15_orig_only_encoded_counterexample']
 import vlib
@@ -19,18 +20,18 @@ SOURCES = (['modules/network/dns_request.cpp', 'modules/network/udp_socket.cpp',
 FLAVOUR = 'asan'
 LIBS = ['-ldl']
 BATCH = 150
-MAX_REPORT = 12
+MAX_REPORT = 6
+SHRINK_TESTS = 60
 TRUSTED = ['model lean/TboxModel/C15/{Deserializer,Model}.lean is hand-written from modules/network/dns_request.cpp, '
-           'modules/util/serializer.cpp (Deserializer) and modules/eventx/timeout_monitor_impl.hpp with patches/C15-01,-02 applied; '
+           'modules/util/serializer.cpp (Deserializer) and modules/eventx/timeout_monitor_impl.hpp with patches/C15-01,-02,-03 applied; '
            'tied by differential runs',
            'harness/vtime.h virtual clock (libc interposition) and harness/loopdrv.h; the loop, TimerEvent and UdpSocket are the real ones',
            'uninitialised reads are expressed in the model as reads of an unset destination; on the implementation side only '
            'ASan/UBSan observe memory errors (an uninitialised read that does not change an observable is not seen at run time)']
-ASSUMPTIONS = ['a callback does not cancel its OWN lookup (DnsRequest erases the std::function while it is executing: heap-use-after-free as soon as the callback touches a capture afterwards — reproduced with VERIF_C15_PROBE_SELFCANCEL=1, patches/C15-03 / proposed known finding); every other re-entrant call (request, cancel of another lookup) from reply, error and timeout callbacks is generated',
-               'no datagram arrives on the real UDP socket during a run (queries go to 127.0.0.1-3:53, nothing listens)',
+ASSUMPTIONS = ['no datagram arrives on the real UDP socket during a run (queries go to 127.0.0.1-3:53, nothing listens)',
                'fewer than 65 535 lookups are started within five ticks of any lookup (16-bit wire id; C15_callback_once_partial says what happens otherwise)',
                'the clock advances in whole seconds between operations (one timer firing per tick)']
-RULE = ('op sequences (servers/defscript/lookup/cancel/running/recv/tick; a lookup\'s callback is a script of API calls — new lookups with their own scripts, cancels of other lookups — executed inside the reply/error/all-servers-failed/timeout callback) from props/C15/plugin.py: replies built from a structured DNS '
+RULE = ('op sequences (servers/defscript/lookup/cancel/running/recv/tick; a lookup\'s callback is a script of API calls — new lookups with their own scripts, cancels of other lookups and of the own one — executed inside the reply/error/all-servers-failed/timeout callback) from props/C15/plugin.py: replies built from a structured DNS '
         'encoder (A/CNAME/other records, compression pointers, chains of 1..18 pointers) then mutated (truncation at every '
         'offset, inflated counts, self/looping/out-of-range pointers, NUL and long labels, wrong rdlength, rcodes, QR bit, '
         'foreign ids, bit flips) plus a random-bytes stream; non-trivial = at least one callback ran and at least one datagram '
@@ -192,13 +193,9 @@ def mutate(rng, r):
 def hx(b): return b.hex() if b else '-'
 
 
-import os
-PROBE_SELF_CANCEL = os.environ.get('VERIF_C15_PROBE_SELFCANCEL', '') == '1'
-
-
 def gen_scripts(rng, alloc_lb, nscripts_before):
-    """defscript lines. A `C<t>` target is an id <= alloc_lb: every lookup that can carry the script is issued later and
-    has a larger id, so a callback never cancels its OWN lookup (excluded: see ASSUMPTIONS / known finding)."""
+    """defscript lines: new lookups (own script, other scripts, undefined script), cancels of any id around the
+    ones issued so far (other lookups, the own one, unknown ones) and cancel-self."""
     out = []
     k = rng.choice([1, 1, 2, 3])
     total = nscripts_before + k
@@ -206,9 +203,9 @@ def gen_scripts(rng, alloc_lb, nscripts_before):
         acts = []
         for _ in range(rng.choice([0, 1, 1, 1, 2, 3])):
             r = rng.random()
-            if r < 0.6: acts.append('L%d' % rng.choice(list(range(total)) + [nscripts_before + j, 63]))
-            elif alloc_lb >= 1: acts.append('C%d' % rng.randrange(1, alloc_lb + 1))
-            else: acts.append('C%d' % rng.choice([0, 65535]))
+            if r < 0.5: acts.append('L%d' % rng.choice(list(range(total)) + [nscripts_before + j, 63]))
+            elif r < 0.8: acts.append('C%d' % rng.choice(list(range(1, alloc_lb + 4)) + [0, 65535]))
+            else: acts.append('S')
         out.append('defscript ' + (','.join(acts) or '-'))
     return out
 
@@ -315,10 +312,12 @@ def directed():
            'recv ' + hx(u16(2) + good[2:])] + ['tick'] * 5 + ['running 4', 'running 5'] + ['tick'] * 6
     yield ['lookup 0', 'defscript L1', 'lookup 0', 'defscript -', 'lookup 0'] + ['tick'] * 11 + ['running 4', 'running 5']   # scripts are bound when the lookup is issued
     yield ['servers 0', 'defscript L0', 'servers 1', 'lookup 0', 'servers 0'] + ['tick'] * 5 + ['servers 1'] + ['tick'] * 6   # the retry is refused
-    if PROBE_SELF_CANCEL:
-        # KNOWN FINDING probe: a callback that cancels its own lookup and then uses its captures (heap-use-after-free)
-        yield ['touch on', 'defscript S', 'lookup 0', 'recv ' + hx(sf(1, 3)), 'running 1']
-        yield ['defscript S,L1', 'defscript -', 'lookup 0'] + ['tick'] * 5 + ['running 1', 'running 2'] + ['tick'] * 5
+    # a callback that cancels its OWN lookup (by `S` and by id) and goes on using its captures, from a reply, an
+    # all-servers-failed and a timeout callback; then retries (as-found tree: heap-use-after-free, patches/C15-03)
+    yield ['defscript S', 'lookup 0', 'recv ' + hx(sf(1, 3)), 'running 1'] + ['tick'] * 5
+    yield ['defscript C1,S,L1', 'defscript S,C2', 'lookup 0'] + ['tick'] * 5 + ['running 1', 'running 2'] + ['tick'] * 5 + ['running 2']
+    yield ['servers 2', 'defscript S,L0', 'lookup 0', 'recv ' + hx(sf(1, 2)), 'recv ' + hx(sf(1, 5)), 'running 1', 'running 2', 'touch off',
+           'recv ' + hx(sf(2, 2)), 'recv ' + hx(sf(2, 2)), 'running 3'] + ['tick'] * 6
     # hop limit boundary: chains of 15..18 pointers
     import random
     r0 = random.Random(15)
